@@ -225,6 +225,33 @@ def run(case):
     if not is_csv or route == "dataframe":
         case.check(back.features.dtypes == feats.dtypes, "feature dtypes changed by a binary round trip",
                    got=[str(d) for d in back.features.dtypes], want=[str(d) for d in feats.dtypes])
+    # ---- a saved object that is edited in place and saved again: the second file holds the edited molecules
+    #      (whatever order the in-place edits come in)
+    import polars as pl
+
+    edits = [("rotate", "translate"), ("translate", "rotate"), ("rotate",), ("translate",), ("rotate", "rotate")][int(rng.integers(0, 5))]
+    Q = gen.small_rotation(rng, 30, 120)
+    tvec = rng.uniform(-5, 5, 3).astype(np.float32)
+    for e in edits:
+        if e == "rotate":
+            mole.rotate_by(Q, copy=False)
+        else:
+            mole.translate(tvec, copy=False)
+    live_pos, live_R = mole.pos.copy(), mole.rotator
+    for how in ("dataframe", "parquet"):
+        if how == "dataframe":
+            back2 = Molecules.from_dataframe(mole.to_dataframe())
+        else:
+            tmp2 = tempfile.mkdtemp(prefix="c13b_")
+            try:
+                mole.to_parquet(os.path.join(tmp2, "again.parquet"))
+                back2 = Molecules.from_parquet(os.path.join(tmp2, "again.parquet"))
+            finally:
+                shutil.rmtree(tmp2, ignore_errors=True)
+        ok2 = len(back2) == N and np.array_equal(back2.pos, live_pos) and \
+            float(np.atleast_1d((back2.rotator * live_R.inv()).magnitude()).max()) <= TOLERANCES["parquet_angle_rad"]
+        case.check(ok2, f"second save ({how}) after in-place edits does not hold the edited molecules", None,
+                   edits=list(edits))
     from vcheck import instr
 
     for v in instr.drain():
